@@ -1,6 +1,8 @@
 //! Chains of services (C04 cascade, C18 / C07 multi-hop): REAL chains of depth 1..3.
 //! Node i = `client::new` + `BaseChannel::with_defaults(rx).requests()` over
-//! `tarpc::transport::channel::unbounded()`; the handler of node i < depth is a real async block
+//! `tarpc::transport::channel::unbounded()` (the client's end goes through `Tap`, which forwards
+//! every call unchanged and notes what was written: the wire is observed hop by hop);
+//! the handler of node i < depth is a real async block
 //! making the nested call through the next node's real client handle with the context of the
 //! request it was given, wrapped in the real `InFlightRequest::execute(serve(..))`; the handlers
 //! of the last node are scripted leaves.  Every component (each dispatch, each Requests stream,
